@@ -168,6 +168,20 @@ pub fn gen_world(ctx: &mut Ctx, focus: Focus) -> World {
         let p = gen_policy(ctx, &mut db, focus, name);
         policies.push(p);
     }
+    if focus == Focus::C15 && ctx.chance(1, 8) {
+        // an IRR mirror without IPv6 data (every !6 query is answered with an error, which the
+        // client sinks) and one policy over a large as-set: dozens of sunk errors in one evaluation
+        // must not change how the other policies fare
+        db.fail_all_v6 = true;
+        let members: Vec<String> = (0..70 + ctx.pick(30)).map(|i| format!("AS{}", 65_100 + i)).collect();
+        for (i, m) in members.iter().enumerate() {
+            db.routes.insert(m.clone(), (vec![format!("10.{}.{}.0/24", 100 + i / 250, i % 250)], vec![format!("2001:db8:{:x}::/48", 0x4000 + i)]));
+        }
+        db.as_sets.insert("AS-BIG".into(), members);
+        let name = fresh_name(ctx, &policies, false);
+        policies.push(RunningPolicy { name, comment: Some("bgpfu-fltr: AS-BIG".into()), decorate: 0, active: None, body: Body::DefaultReject, attr_variant: 0 });
+        ctx.count("probe.large_as_set_on_a_mirror_without_ipv6_data");
+    }
     let instance = (*ctx.tape.choose(&["bgpfu", "bgpfu", "irr-filters", "eph_1"])).to_string();
     World { db, policies, instance }
 }
@@ -1199,4 +1213,4 @@ agent_spec!(C03, "C03", run_c03, "fault_enumeration", 20_000, 1_000_000, 0,
 agent_spec!(C04, "C04", run_c04, "fault_enumeration", 20_000, 1_000_000, 0,
     "1-2 runs per history with 1-2 faults at seeded positions of the request sequence open -> get-config x2 -> load x N -> commit -> close-configuration -> close-session; fault kinds: rpc-error, error inside load-configuration-results, error followed by <ok/>, the positive indication followed by an error, a reply without any content (no acknowledgement), malformed reply, truncated reply, unknown message-id, another outstanding request's message-id, duplicated reply, close before the reply, close after the reply, and (non-fault) warning followed by <ok/>; reply delays let a failing load reply arrive after later loads were sent. Oracle on the per-session request log: commit only after open and every load were positively acknowledged and delivered, never after a failed step; fault => run fails; success => commit, close-configuration and close-session acknowledged");
 agent_spec!(C15, "C15", run_c15, "exploration", 20_000, 1_000_000, 0,
-    "1-5 (thorough: 1-10) managed policies of which some are unevaluable: unknown as-set, IRR error response, PeerAS, AS-path regular expression, community match; all hash orders; one run in 60 is made end to end by the agent executable (its own main(), i.e. with whatever process-wide hooks it installs). Oracle: the run succeeds, every evaluable policy reaches its reference set and is committed, the unevaluable ones are untouched. The violation class names the kind of unevaluable member present", COMPONENTS_C01);
+    "1-5 (thorough: 1-10) managed policies of which some are unevaluable (one world in eight additionally has a policy over a 70-100 member as-set on an IRR mirror that answers every route6 query with an error, i.e. dozens of sunk errors within one evaluation): unknown as-set, IRR error response, PeerAS, AS-path regular expression, community match; all hash orders; one run in 60 is made end to end by the agent executable (its own main(), i.e. with whatever process-wide hooks it installs). Oracle: the run succeeds, every evaluable policy reaches its reference set and is committed, the unevaluable ones are untouched. The violation class names the kind of unevaluable member present", COMPONENTS_C01);
